@@ -44,6 +44,11 @@ def body(cfg, ctx, sources=False):
         # deterministic in the case: every third configuration also has a (valid) sibling route with a middleware of its own
         cfg = dict(cfg, siblings=[I.sibling_for(cfg)])
         ctx.event('with-sibling-route')
+    if len(_json.dumps(cfg, sort_keys=True)) % 4 == 1:
+        # every fourth configuration: the Route (and every inner application) has been bound into an unrelated,
+        # resource-rich application before - the decision must not depend on that earlier binding
+        cfg = dict(cfg, prebound=True)
+        ctx.event('bound-elsewhere-before')
     try:
         plan = I.predict(cfg)
         rej = None
